@@ -291,7 +291,12 @@ func MarshalError(err error) (errorBody []byte, httpStatus int) {
 	} else {
 		var httpErr HTTPError
 		if errors.As(err, &httpErr) {
-			httpStatus = httpErr.StatusCode()
+			// Only use a status that can stand for a failure: an error
+			// must not turn into a 200 or 304 response (and a status
+			// outside the valid range would make WriteHeader panic).
+			if code := httpErr.StatusCode(); code >= 400 && code <= 599 {
+				httpStatus = code
+			}
 		}
 	}
 	// Prevent the message from containing a redundant
